@@ -80,6 +80,20 @@ def run(ck):
                 got = dict((n, semcmp.canon(x)) for n, x in o["g"])["r"]
                 if got != e:
                     raise vlib.Infra("closed form of the harness is wrong for %s depth %d: %s vs %s" % (p["form"], p["depth"], e, got))
+    # ---- bytecode level: the recorded instruction stream of every model-depth run (frame index and stack pointer before
+    # every instruction) must be a behaviour of TengoVM.tla, whose CALL action re-uses the frame exactly for self tail calls
+    vv = semlib.vm_validate(ck, progs, njobs=12, tag="vmtc", max_steps=6000)
+    vstats = {}
+    for p in progs:
+        o = vv.get(p["id"], {"v": "skipped"})
+        vstats[o["v"]] = vstats.get(o["v"], 0) + 1
+        ck.evaluations += 1
+        if o["v"] == "accepted":
+            ck.traces += 1
+        elif o["v"] == "rejected":
+            ck.violation("vm-trace:" + p["form"], "the recorded run (form %s, depth %d) is not a behaviour of TengoVM.tla: %s at event %s of %s (%s)\n%s" % (
+                p["form"], p["depth"], o["why"], o.get("at"), o.get("n"), json.dumps(o.get("event"))[:200], p["src"]), {"program": p, "vm": o})
+    ck.extra["vm_trace_verdicts"] = vstats
     # ---- deep runs
     depths = [1000, 1030, 5000, 100000] if quick else [1000, 1023, 1024, 1030, 5000, 100000, 1000000]
     deep = []
